@@ -448,6 +448,17 @@ def run_traced(name, spec, seed, size, budgets, evaluator="map", explicit=False,
     import plat as _plat
     wd = _plat.watchdog(RUN_WATCHDOG_S, on_fire=lambda: RunTimeout(f"run exceeded {RUN_WATCHDOG_S} s of CPU time (or {10 * RUN_WATCHDOG_S} s of wall time)"))
     wd.__enter__()
+    # time continuation (platypus/extensions.py): record, from outside, every restart of *this* algorithm -- the size of the
+    # archive it starts from and the extension's public parameters -- the input of Model/Restart.lean
+    import platypus.extensions as _px
+    _orig_restart = _px.AdaptiveTimeContinuationExtension.restart
+
+    def _traced_restart(self_, algorithm, _orig=_orig_restart):
+        if algorithm is alg:
+            tr.events.append(("restart", len(algorithm.archive), self_.population_ratio, self_.min_population_size,
+                              self_.max_population_size, getattr(getattr(self_, "mutator", None), "arity", None)))
+        return _orig(self_, algorithm)
+    _px.AdaptiveTimeContinuationExtension.restart = _traced_restart
     with patched_random(rng):
         try:
             kw = {"evaluator": ev}
@@ -527,7 +538,8 @@ def run_traced(name, spec, seed, size, budgets, evaluator="map", explicit=False,
             def cb(a):
                 ex = exposed(a) if collect_steps else {}
                 tr.events.append(("step", a.nfe, {k: [tr.snap(s) for s in v] for k, v in ex.items()},
-                                  {k: len(v) for k, v in ex.items()}, len(getattr(a, "population", None) or getattr(a, "particles", None) or [])))
+                                  {k: len(v) for k, v in ex.items()}, len(getattr(a, "population", None) or getattr(a, "particles", None) or []),
+                                  getattr(a, "population_size", None)))
             conds = {}
             for N in budgets:
                 tr.events.append(("run", N, alg.nfe))
@@ -548,6 +560,7 @@ def run_traced(name, spec, seed, size, budgets, evaluator="map", explicit=False,
                 TIMEOUTS += 1
             err = f"{type(e).__name__}: {e} @ " + traceback.format_exc().strip().split("\n")[-3].strip()
         finally:
+            _px.AdaptiveTimeContinuationExtension.restart = _orig_restart
             wd.__exit__(None, None, None)
             if closer:
                 closer()
